@@ -284,9 +284,10 @@ def run(ctx):
     if tie and not found:
         ctx.violation('tie-broken', tie[:300], dict(kind='tie', detail=tie, theorem='props/C02.v / Impl correspondence',
                                                      first_disagreement=ctx.coverage.get('first_disagreement')), nofail=True)
-    ctx.assumptions += ['C02_logpdf_terms_refines_partial: JSON-schema shapes of modifier data (shape_ok, list_shape_ok), per-sample clip not positive '
-                        '(clip_guard, C01 known finding), access-field layout premise layout_okb (evaluated true on every generated model; '
-                        'derivation from build = Ok is RefineLayout.v); number laws: ring, sound boolean equality, a/b = a*inv b (proved for Qc and R)',
+    ctx.assumptions += ['C02_logpdf_terms_refines: JSON-schema shapes of modifier data (shape_ok, list_shape_ok), per-sample clip not positive '
+                        '(clip_guard, C01 known finding); number laws: ring, sound boolean equality, a/b = a*inv b (proved for Qc and R). '
+                        'The _partial variants additionally carry layout_okb, which RefineLayout.accepted_layout derives from build = Ok '
+                        '(still evaluated per generated model as a cross-check)',
                         'C02_length_cterms_auxdata: no constrained parameter set of size 0 (empty sample data, refused by the schema); '
                         'the excluded corner is refuted by C02_auxdata_length_refuted']
     ctx.trusted += ['density primitives are parameters of the engine (property C04); reference sums use mpmath at 40 digits',
